@@ -187,12 +187,34 @@ class FileProxy:
         self.close()
         return False
 
+    def _resolve_path(self):
+        p = object.__getattribute__(self, "_path")
+        if p is None:
+            try:
+                p = os.readlink(f"/proc/self/fd/{self._f.fileno()}")
+            except Exception:  # noqa
+                p = "<unknown>"
+            object.__setattr__(self, "_path", p)
+        return p
+
+    def write(self, data):
+        ctl = _active()
+        if ctl is None or not getattr(ctl, "wants_write_ops", False):
+            return self._f.write(data)
+        return _run(Op("write", "file.write", self._resolve_path()), self._f.write, (data,), {})
+
+    def writelines(self, lines):
+        ctl = _active()
+        if ctl is None or not getattr(ctl, "wants_write_ops", False):
+            return self._f.writelines(lines)
+        return _run(Op("write", "file.writelines", self._resolve_path()), self._f.writelines, (lines,), {})
+
     def truncate(self, size=None):
         ctl = _active()
         if ctl is None:
             return self._f.truncate(size) if size is not None else self._f.truncate()
         self._f.flush()
-        op = Op("flush-before-truncate", "file.truncate", self._path)
+        op = Op("flush-before-truncate", "file.truncate", self._resolve_path())
         return _run(op, (lambda: self._f.truncate(size) if size is not None else self._f.truncate()), (), {})
 
     def close(self):
@@ -205,13 +227,18 @@ class FileProxy:
             fd = self._f.fileno()
         except Exception:  # noqa
             fd = None
-        op = Op("close-write", "file.close", self._path, fd=fd)
+        op = Op("close-write", "file.close", self._resolve_path(), fd=fd)
         return _run(op, self._f.close, (), {})
 
 
 def _open_wrapper(real, fname):
     def w(file, mode="r", *a, **k):
         ctl = _active()
+        if ctl is not None and k.get("opener") is not None and getattr(ctl, "wants_write_ops", False):
+            # tempfile.NamedTemporaryFile: the creating os.open happens inside the opener (intercepted there); the
+            # file object is wrapped so that writes of the staged data become visible operations
+            f = real(file, mode, *a, **k)
+            return FileProxy(f, None, mode if isinstance(mode, str) else "w+b")
         if ctl is None or isinstance(file, int) or k.get("opener") is not None:
             return real(file, mode, *a, **k)
         m = mode if isinstance(mode, str) else "r"
@@ -306,12 +333,14 @@ def real(name):
 class Recorder:
     """Records every intercepted operation of the calling thread (no interference)."""
 
+    wants_write_ops = True
+
     def __init__(self, root):
         self.root = os.path.abspath(str(root))
         self.ops = []
 
     def wants_proxy(self, op):
-        return is_shared_store_path(self.root, op.path)
+        return under(self.root, op.path)
 
     def pre(self, op):
         op.seq = len(self.ops)
